@@ -113,11 +113,14 @@ def build_spec_graphs(sp, weight_form=None, G=None, r=None, directed=False):
                     w[(v, u)] = G.edges[u, v]['ew_']
             edge_w[(ab, ac)] = w
         elif weight_form == 'function':
+            # a user rate function may be asymmetric in (source, target) even on an undirected graph:
+            # edge factor x infectiousness of the source x susceptibility of the target
             w = {}
             for u, v in G.edges():
-                w[(u, v)] = G.edges[u, v]['ew_']
+                base = G.edges[u, v]['ew_']
+                w[(u, v)] = base * G.nodes[u]['nw_'] / (0.25 + G.nodes[v]['nw_'])
                 if not directed:
-                    w[(v, u)] = G.edges[u, v]['ew_']
+                    w[(v, u)] = base * G.nodes[v]['nw_'] / (0.25 + G.nodes[u]['nw_'])
 
             def rf2(Gx, source, target, _w=w, **kw):
                 calls['nbr'].append((source, target, dict(kw)))
